@@ -246,6 +246,13 @@ LEAN_KEYWORDS = set(
     "partial unsafe opaque nomatch nofun this Type Prop Sort".split()
 )
 RESERVED = {"it_", "fuel_", "e_", "v_", "lt_", "ord_"}
+# Lean constants that the GENERATED text itself mentions unqualified (`none`, `some x`, `true`, `decide (..)`,
+# `List.map ..`, `Int.toNat ..`, `Py.getInt? ..`): a Python local of that name would be bound by a Lean `let` /
+# pattern and silently CAPTURE those occurrences (`none = xs[i]; return None` would return `xs[i]`; a dead local
+# `true = False` flips every generated `.. = true`).  Such a name is rejected (tie "unavailable": never a wrong
+# translation, never an alarm).
+CAPTURED = {"none", "some", "true", "false", "decide", "List", "Option", "Nat", "Int", "Bool",
+            "Unit", "Except", "Py", "SR"}
 # builtins whose Python meaning the translator relies on: a module or a function that rebinds one is rejected
 BUILTINS = {"min", "max", "len", "bool", "list", "range", "enumerate", "int", "None", "True", "False"}
 # names of the methods (of the classes being translated) that change their receiver: set by `translate_source`
@@ -272,6 +279,8 @@ def lean_name(name, node=None):
         raise Unsupported(node or name, f"`{name}` rebinds a builtin the translator relies on")
     if name in RESERVED or re.fullmatch(r"t\d+_", name):
         raise Unsupported(node or name, f"local name `{name}` is reserved by the translator")
+    if name in CAPTURED:
+        raise Unsupported(node or name, f"local name `{name}` would capture a Lean constant used by the translation")
     if not re.fullmatch(r"[A-Za-z_][A-Za-z0-9_]*", name):
         raise Unsupported(node or name, f"non-ASCII identifier `{name}`")
     return name + "'" if name in LEAN_KEYWORDS else name
